@@ -61,7 +61,16 @@ def run(chk):
         if r["kind"] == "badarg":
             r2.fail("ObjectPool.get_and_release:release-of-other-object", "release/destroy is not called with the object obtained from get()", fn=fn, node=r["node"])
             continue
-        if not r["got"] or r["colour"] == ASYNC:
+        if not r["got"]:
+            continue
+        if r["colour"] == ASYNC:
+            # "once each call has returned or raised": the slot must also come back when the body is aborted by a
+            # BaseException (shared with C10.R2)
+            n_ex += 1
+            if r["rel"] != 1:
+                r2.fail("ObjectPool.get_and_release:ASYNC-count-%d" % r["rel"], "an exit of get_and_release by a BaseException thrown into the body passes %d release/destroy calls: the connection stays checked out forever and max_pool_size is eventually exhausted" % r["rel"], fn=fn, witness=fmt_trace(r["trace"]))
+            else:
+                r2.ok("get_and_release(destroy_on_fail=%s): BaseException exit passes exactly one %s" % (r["dof"], r["how"]), sample=False)
             continue
         n_ex += 1
         what = "normal exit" if r["kind"] == "ret" else "exit by an ordinary exception thrown into the body"
